@@ -648,6 +648,7 @@ func runC10RunScenario(rec *Recorder, r *rand.Rand) {
 	rec.NextTrace()
 	h := NewRunHarness(rec, cfg)
 	defer h.Close(false)
+	h.Quiet = map[string]bool{"RpmBegin": true, "CycleBegin": true} // (ladders are long; Monitor_Stall reads RpmEnd / CycleEnd)
 	// the fan was spinning at some speed before (prior RPM average), or never spun
 	h.fs["f1"].fan.SetRpmAvg([]float64{0, 0, 1, 20, 800, 3000, 20000}[r.Intn(7)])
 	if lateRpm {
